@@ -38,20 +38,149 @@ theorem decodeParam_const_obj_short (o : Obj) (ho : o.ok) (v : IVal) (fuel : Nat
       simp [Obj.toConstParam, Obj.bt, hkind, decodeParam, decodeDct, extractAtomic, extractCore,
         bind, pure, run_bind, run_pure, run_getS, run_modifyS, run_ite, run_raise, BaseType.isNumeric, hb0, hnl, hnl', hb, hsz]
 
+/-- a leaf whose bytes are there but do not decode (ill-formed UTF-8; a binary32 NaN / subnormal pattern): the decoder
+    raises — `DecodeError` for text, while the float32 patterns are outside the model (`unmodelled`) -/
+theorem decodeParam_obj_undecodable (o : Obj) (ho : o.ok) (fuel : Nat) (d : DecState)
+    (hlen : o.pos d.origin d.cursorByte + o.k ≤ d.msg.length)
+    (hdec : ¬ o.decodes (readNum d.msg (o.pos d.origin d.cursorByte) o.k o.hl / 2 ^ o.bp % 2 ^ o.bl)) :
+    ∃ e d', decodeParam (fuel + 2) o.toParam d true = .error (e, d') ∧ (o.kind ≠ .float32 → e = .decode) := by
+  obtain ⟨hk, hbl, hsz⟩ := ho
+  have hb0 : o.bl ≠ 0 := by omega
+  unfold Obj.encOk at hk
+  unfold Obj.sizeOk at hsz
+  unfold Obj.pos Obj.k Obj.bp at hlen
+  unfold Obj.decodes Obj.pos Obj.k Obj.bp at hdec
+  cases hkind : o.kind <;> simp only [hkind, not_true_eq_false] at hk hsz hdec
+  · cases hb : o.bytePos <;> simp only [hb, hsz] at hlen hdec
+    all_goals
+      have hnl : ¬ (d.msg.length < _ + (32 + o.bitPos.getD 0 + 7) / 8) := Nat.not_lt.mpr hlen
+      have hnone := Option.not_isSome_iff_eq_none.mp hdec
+      generalize hx : decodeParam (fuel + 2) o.toParam d true = x
+      rcases hk with he | he
+      all_goals
+        simp [Obj.toParam, Obj.bt, hkind, decodeParam, decodeDop, decodeDct, extractAtomic, extractCore, convertRaw,
+          bind, pure, run_bind, run_pure, run_getS, run_modifyS, run_ite, run_raise, BaseType.isNumeric, odxassert, hsz, hnl,
+          he, hb, hnone] at hx
+        subst hx
+        exact ⟨_, _, rfl, fun h => absurd rfl h⟩
+  · obtain ⟨hm8, hhl⟩ := hsz
+    have e2 : (8 - o.bl % 8) % 8 = 0 := by omega
+    rw [e2, Nat.pow_zero, Nat.mul_one, hhl] at hdec
+    cases hb : o.bytePos <;> simp only [hb] at hlen hdec
+    all_goals
+      have hnl : ¬ (d.msg.length < _ + (o.bl + o.bitPos.getD 0 + 7) / 8) := Nat.not_lt.mpr hlen
+      have hnone := Option.not_isSome_iff_eq_none.mp hdec
+      generalize hx : decodeParam (fuel + 2) o.toParam d true = x
+      rcases hk with he | he
+      all_goals
+        simp [Obj.toParam, Obj.bt, hkind, decodeParam, decodeDop, decodeDct, extractAtomic, extractCore, convertRaw,
+          stringCodec, bind, pure, run_bind, run_pure, run_getS, run_modifyS, run_ite, run_raise, run_odxraise_strict,
+          BaseType.isNumeric, odxassert, hb0, hnl, he, hb, hm8, hhl, hnone] at hx
+        subst hx
+        exact ⟨_, _, rfl, fun _ => rfl⟩
+  · obtain ⟨hm8, hhl⟩ := hsz
+    have e2 : (8 - o.bl % 8) % 8 = 0 := by omega
+    rw [e2, Nat.pow_zero, Nat.mul_one, hhl] at hdec
+    cases hb : o.bytePos <;> simp only [hb] at hlen hdec
+    all_goals
+      have hnl : ¬ (d.msg.length < _ + (o.bl + o.bitPos.getD 0 + 7) / 8) := Nat.not_lt.mpr hlen
+      have hnone := Option.not_isSome_iff_eq_none.mp hdec
+      generalize hx : decodeParam (fuel + 2) o.toParam d true = x
+      rcases hk with he | he
+      all_goals
+        simp [Obj.toParam, Obj.bt, hkind, decodeParam, decodeDop, decodeDct, extractAtomic, extractCore, convertRaw,
+          stringCodec, bind, pure, run_bind, run_pure, run_getS, run_modifyS, run_ite, run_raise, run_odxraise_strict,
+          BaseType.isNumeric, odxassert, hb0, hnl, he, hb, hm8, hhl, hnone] at hx
+        subst hx
+        exact ⟨_, _, rfl, fun _ => rfl⟩
+
+theorem decodeParam_const_obj_undecodable (o : Obj) (ho : o.ok) (v : IVal) (fuel : Nat) (d : DecState)
+    (hlen : o.pos d.origin d.cursorByte + o.k ≤ d.msg.length)
+    (hdec : ¬ o.decodes (readNum d.msg (o.pos d.origin d.cursorByte) o.k o.hl / 2 ^ o.bp % 2 ^ o.bl)) :
+    ∃ e d', decodeParam (fuel + 1) (o.toConstParam v) d true = .error (e, d') ∧ (o.kind ≠ .float32 → e = .decode) := by
+  obtain ⟨hk, hbl, hsz⟩ := ho
+  have hb0 : o.bl ≠ 0 := by omega
+  unfold Obj.encOk at hk
+  unfold Obj.sizeOk at hsz
+  unfold Obj.pos Obj.k Obj.bp at hlen
+  unfold Obj.decodes Obj.pos Obj.k Obj.bp at hdec
+  cases hkind : o.kind <;> simp only [hkind, not_true_eq_false] at hk hsz hdec
+  · cases hb : o.bytePos <;> simp only [hb, hsz] at hlen hdec
+    all_goals
+      have hnl : ¬ (d.msg.length < _ + (32 + o.bitPos.getD 0 + 7) / 8) := Nat.not_lt.mpr hlen
+      have hnone := Option.not_isSome_iff_eq_none.mp hdec
+      generalize hx : decodeParam (fuel + 1) (o.toConstParam v) d true = x
+      rcases hk with he | he
+      all_goals
+        simp [Obj.toConstParam, Obj.bt, hkind, decodeParam, decodeDct, extractAtomic, extractCore, convertRaw,
+          bind, pure, run_bind, run_pure, run_getS, run_modifyS, run_ite, run_raise, BaseType.isNumeric, odxassert, hsz, hnl,
+          he, hb, hnone] at hx
+        subst hx
+        exact ⟨_, _, rfl, fun h => absurd rfl h⟩
+  · obtain ⟨hm8, hhl⟩ := hsz
+    have e2 : (8 - o.bl % 8) % 8 = 0 := by omega
+    rw [e2, Nat.pow_zero, Nat.mul_one, hhl] at hdec
+    cases hb : o.bytePos <;> simp only [hb] at hlen hdec
+    all_goals
+      have hnl : ¬ (d.msg.length < _ + (o.bl + o.bitPos.getD 0 + 7) / 8) := Nat.not_lt.mpr hlen
+      have hnone := Option.not_isSome_iff_eq_none.mp hdec
+      generalize hx : decodeParam (fuel + 1) (o.toConstParam v) d true = x
+      rcases hk with he | he
+      all_goals
+        simp [Obj.toConstParam, Obj.bt, hkind, decodeParam, decodeDct, extractAtomic, extractCore, convertRaw,
+          stringCodec, bind, pure, run_bind, run_pure, run_getS, run_modifyS, run_ite, run_raise, run_odxraise_strict,
+          BaseType.isNumeric, odxassert, hb0, hnl, he, hb, hm8, hhl, hnone] at hx
+        subst hx
+        exact ⟨_, _, rfl, fun _ => rfl⟩
+  · obtain ⟨hm8, hhl⟩ := hsz
+    have e2 : (8 - o.bl % 8) % 8 = 0 := by omega
+    rw [e2, Nat.pow_zero, Nat.mul_one, hhl] at hdec
+    cases hb : o.bytePos <;> simp only [hb] at hlen hdec
+    all_goals
+      have hnl : ¬ (d.msg.length < _ + (o.bl + o.bitPos.getD 0 + 7) / 8) := Nat.not_lt.mpr hlen
+      have hnone := Option.not_isSome_iff_eq_none.mp hdec
+      generalize hx : decodeParam (fuel + 1) (o.toConstParam v) d true = x
+      rcases hk with he | he
+      all_goals
+        simp [Obj.toConstParam, Obj.bt, hkind, decodeParam, decodeDct, extractAtomic, extractCore, convertRaw,
+          stringCodec, bind, pure, run_bind, run_pure, run_getS, run_modifyS, run_ite, run_raise, run_odxraise_strict,
+          BaseType.isNumeric, odxassert, hb0, hnl, he, hb, hm8, hhl, hnone] at hx
+        subst hx
+        exact ⟨_, _, rfl, fun _ => rfl⟩
+
 mutual
-/-- a parameter some leaf of which lies (partly) behind the end of the message is rejected with `DecodeError` -/
+/-- no `A_FLOAT32` leaf: every pattern the decoder cannot turn into a value is a `DecodeError` (the model does not follow
+    binary32 NaN / subnormal patterns, for which it answers `unmodelled`) -/
+def Tree.strictDec : Tree → Prop
+  | .int o _ => o.kind ≠ .float32
+  | .const o _ => o.kind ≠ .float32
+  | .struct _ _ kids => Trees.strictDec kids
+def Trees.strictDec : List Tree → Prop
+  | [] => True
+  | t :: ts => t.strictDec ∧ Trees.strictDec ts
+end
+
+mutual
+/-- a parameter some leaf of which lies (partly) behind the end of the message — or whose bytes do not decode (ill-formed
+    text) — is rejected, with `DecodeError` unless an `A_FLOAT32` leaf is involved -/
 theorem Tree.decode_short : (t : Tree) → t.okAll → ∀ (fuel : Nat), t.need ≤ fuel → ∀ (d : DecState), d.cursorBit = 0 →
-    ¬ t.pair.fits d → ∃ d', decodeParam fuel t.toParam d true = .error (.decode, d')
+    ¬ t.pair.fits d → ∃ e d', decodeParam fuel t.toParam d true = .error (e, d') ∧ (t.strictDec → e = .decode)
   | .int o v, hok, fuel, hf, d, _, hshort => by
     simp only [Tree.okAll] at hok
     simp only [Tree.need] at hf
     obtain ⟨f, rfl⟩ : ∃ f, fuel = f + 2 := ⟨fuel - 2, by omega⟩
-    exact decodeParam_obj_short o hok.1 f d hshort
+    by_cases hlen : o.pos d.origin d.cursorByte + o.k ≤ d.msg.length
+    · exact decodeParam_obj_undecodable o hok.1 f d hlen (fun h => hshort ⟨hlen, h⟩)
+    · obtain ⟨d', h⟩ := decodeParam_obj_short o hok.1 f d hlen
+      exact ⟨_, d', h, fun _ => rfl⟩
   | .const o v, hok, fuel, hf, d, _, hshort => by
     simp only [Tree.okAll] at hok
     simp only [Tree.need] at hf
     obtain ⟨f, rfl⟩ : ∃ f, fuel = f + 1 := ⟨fuel - 1, by omega⟩
-    exact decodeParam_const_obj_short o hok.1 v f d hshort
+    by_cases hlen : o.pos d.origin d.cursorByte + o.k ≤ d.msg.length
+    · exact decodeParam_const_obj_undecodable o hok.1 v f d hlen (fun h => hshort ⟨hlen, h⟩)
+    · obtain ⟨d', h⟩ := decodeParam_const_obj_short o hok.1 v f d hlen
+      exact ⟨_, d', h, fun _ => rfl⟩
   | .struct n bp kids, hok, fuel, hf, d, hcb, hshort => by
     simp only [Tree.okAll] at hok
     simp only [Tree.need] at hf
@@ -59,17 +188,18 @@ theorem Tree.decode_short : (t : Tree) → t.okAll → ∀ (fuel : Nat), t.need 
     have hf' : Trees.need kids ≤ f := by omega
     have hshort' : ¬ (Trees.pair kids).fits
         { d with cursorByte := posOf bp d.origin d.cursorByte, origin := posOf bp d.origin d.cursorByte } := hshort
-    obtain ⟨d', hrun⟩ := Trees.decode_short kids hok f hf'
+    obtain ⟨e, d', hrun, he⟩ := Trees.decode_short kids hok f hf'
       { d with cursorByte := posOf bp d.origin d.cursorByte, origin := posOf bp d.origin d.cursorByte } hcb hshort'
+    refine ⟨e, d', ?_, he⟩
     cases bp <;>
     · simp only [posOf] at hrun
       simp only [Tree.toParam, decodeParam, decodeDop, decodeComposite, bind, pure, run_bind, run_getS, run_modifyS,
         run_pure, Option.getD_none]
       simp only [hcb] at hrun ⊢
       rw [hrun]
-      exact ⟨_, rfl⟩
 theorem Trees.decode_short : (ts : List Tree) → Trees.okAll ts → ∀ (fuel : Nat), Trees.need ts ≤ fuel → ∀ (d : DecState),
-    d.cursorBit = 0 → ¬ (Trees.pair ts).fits d → ∃ d', decodeParams fuel (Trees.toParams ts) d true = .error (.decode, d')
+    d.cursorBit = 0 → ¬ (Trees.pair ts).fits d →
+    ∃ e d', decodeParams fuel (Trees.toParams ts) d true = .error (e, d') ∧ (Trees.strictDec ts → e = .decode)
   | [], _, fuel, hf, d, _, hshort => absurd trivial hshort
   | t :: ts, hok, fuel, hf, d, hcb, hshort => by
     simp only [Trees.okAll] at hok
@@ -79,26 +209,35 @@ theorem Trees.decode_short : (ts : List Tree) → Trees.okAll ts → ∀ (fuel :
     · -- the first parameter decodes; the short one comes later
       have hd := Tree.decode_eq t hok.1 f (by omega) d hcb h1
       have hshort' : ¬ (Trees.pair ts).fits (t.pair.dec d).2 := fun h => hshort ⟨h1, h⟩
-      obtain ⟨d', hrun⟩ := Trees.decode_short ts hok.2 f (by omega) (t.pair.dec d).2 (Tree.dec_cursorBit t d hcb) hshort'
-      refine ⟨d', ?_⟩
+      obtain ⟨e, d', hrun, he⟩ := Trees.decode_short ts hok.2 f (by omega) (t.pair.dec d).2 (Tree.dec_cursorBit t d hcb) hshort'
+      refine ⟨e, d', ?_, fun hs => he hs.2⟩
       simp only [Trees.toParams, decodeParams, bind, run_bind, hd, hrun]
-    · obtain ⟨d', hrun⟩ := Tree.decode_short t hok.1 f (by omega) d hcb h1
-      refine ⟨d', ?_⟩
+    · obtain ⟨e, d', hrun, he⟩ := Tree.decode_short t hok.1 f (by omega) d hcb h1
+      refine ⟨e, d', ?_, fun hs => he hs.1⟩
       simp only [Trees.toParams, decodeParams, bind, run_bind, hrun]
 end
 
-/-- **C05, struct tier.** A message that ends before (or inside) some leaf of a nested description is rejected by
-    `Request.decode` with the library's `DecodeError` — it is never completed with invented values. -/
-theorem decodeMessage_tree_short (ts : List Tree) (hneed : Trees.need ts + 2 ≤ modelFuel) (hok : Trees.okAll ts) (msg : Bytes)
+/-- a message in which some leaf does not fit (too short, or bytes that do not decode) is rejected by `Request.decode` -/
+theorem decodeMessage_tree_unfit (ts : List Tree) (hneed : Trees.need ts + 2 ≤ modelFuel) (hok : Trees.okAll ts) (msg : Bytes)
     (hshort : ¬ (Trees.pair ts).fits { msg := msg }) :
-    decodeMessage none (Trees.toParams ts) msg true = .error .decode := by
+    ∃ e, decodeMessage none (Trees.toParams ts) msg true = .error e ∧ (Trees.strictDec ts → e = .decode) := by
   obtain ⟨f, hf⟩ : ∃ f, modelFuel = f + 1 + 1 := ⟨modelFuel - 2, by unfold modelFuel; omega⟩
   have hf' : Trees.need ts ≤ f := by omega
-  obtain ⟨d', hdec⟩ := Trees.decode_short ts hok f hf' { msg := msg } rfl hshort
+  obtain ⟨e, d', hdec, he⟩ := Trees.decode_short ts hok f hf' { msg := msg } rfl hshort
   have hdec' : decodeParams f (Trees.toParams ts) { msg := msg, origin := 0, cursorByte := 0 } true = _ := hdec
+  refine ⟨e, ?_, he⟩
   unfold decodeMessage
   rw [hf]
   simp only [decodeDop, decodeComposite, bind, pure, run_bind, run_getS, run_modifyS, run_pure]
   rw [hdec']
+
+/-- **C05, struct tier.** A message that ends before (or inside) some leaf of a nested description — or carries ill-formed
+    text in a string leaf — is rejected by `Request.decode` with the library's `DecodeError` — it is never completed with
+    invented values. (`Trees.strictDec`: no `A_FLOAT32` leaf; the model does not follow NaN / subnormal binary32 patterns.) -/
+theorem decodeMessage_tree_short (ts : List Tree) (hneed : Trees.need ts + 2 ≤ modelFuel) (hok : Trees.okAll ts) (msg : Bytes)
+    (hshort : ¬ (Trees.pair ts).fits { msg := msg }) (hs : Trees.strictDec ts) :
+    decodeMessage none (Trees.toParams ts) msg true = .error .decode := by
+  obtain ⟨e, h, he⟩ := decodeMessage_tree_unfit ts hneed hok msg hshort
+  rw [h, he hs]
 
 end OdxVerif.Codec
